@@ -23,10 +23,15 @@ ASSUMPTIONS = [
 ]
 
 
-def numbered(i):
+def numbered(i, big=0):
     import indi.message as M
     from indi.message import one_parts
 
+    if big:
+        import base64
+
+        raw = bytes((k * 31 + i) % 256 for k in range(big))
+        return M.SetBLOBVector(device="D", name="B", state="Ok", children=[one_parts.OneBLOB(name="a", size=len(raw), format=".b%d" % i, value=base64.b64encode(raw).decode())])
     return M.SetTextVector(device="D", name="V", state="Ok", children=[one_parts.OneText(name="a", value="m%d" % i), one_parts.OneText(name="b", value="x" * (i % 3))])
 
 
@@ -75,7 +80,12 @@ def execute(p, ch):
             stdin = V.aio_text(V.LineSource(), loop, V.CtlExecutor())
             stdout = V.aio_text(sink, loop, ctl)
             handlers.append(ConnectionHandler(router, stdin, stdout))
-        msgs = [numbered(i) for i in range(p["burst"])]
+        msgs = [numbered(i, p.get("big", 0) if i == p.get("big_at", 0) else 0) for i in range(p["burst"])]
+        if p.get("big") and tr in ("tcp-server", "mixed", "tty"):
+            import indi.message as M
+
+            for h in handlers:  # these connections want BLOBs too
+                router.process_message(M.IndiMessage.from_string('<enableBLOB device="D">Also</enableBLOB>'), sender=h)
         remaining = list(msgs)
         paused = [False] * len(eps)
         budget = p["toggles"]
@@ -153,11 +163,11 @@ def judge(p, obs):
             fails.append(("garbled", d0, "connection %d: stray characters %r between elements" % (i, rest[:80])))
         if stalled:
             if views != want_views[: len(views)]:
-                fails.append(("order", d0 + ",stalled", "stalled connection %d wrote %r" % (i, [v[3][0][2] for v in views])))
+                fails.append(("order", d0 + ",stalled", "stalled connection %d wrote %r" % (i, [(v[3][0][2] or "")[:12] for v in views])))
             continue
         if views == want_views:
             continue
-        got = [v[3][0][2] if v[3] else "?" for v in views]
+        got = [(v[3][0][2] or "")[:12] if v[3] else "?" for v in views]
         if sorted(map(repr, views)) == sorted(map(repr, want_views)):
             fails.append(("order", d0, "connection %d wrote messages in order %r" % (i, got)))
         elif len(views) < len(want_views):
@@ -188,6 +198,11 @@ def configs(tier):
         out.append(dict(transport="mixed", nconn=2, burst=2, toggles=1, victim=1, W=2))
         out.append(dict(transport="tcp-server", nconn=1, burst=5, toggles=2, victim=None))
         out.append(dict(transport="tcp-client", nconn=1, burst=5, toggles=2, victim=None))
+        # a message far above any chunking size (100 kB BLOB) followed / preceded by small ones
+        for tr in ("tcp-client", "tcp-server"):
+            out.append(dict(transport=tr, nconn=1, burst=2, toggles=3, victim=None, big=100000, big_at=0))
+            out.append(dict(transport=tr, nconn=1, burst=3, toggles=2, victim=None, big=100000, big_at=1))
+        out.append(dict(transport="tty", nconn=1, burst=2, toggles=0, victim=None, W=2, big=100000, big_at=0))
     else:
         for burst in (1, 2, 3, 4, 5):
             out.append(dict(transport="tcp-server", nconn=1, burst=burst, toggles=4, victim=None))
@@ -201,6 +216,11 @@ def configs(tier):
         for victim in (None, 0, 2):
             out.append(dict(transport="tcp-server", nconn=3, burst=2, toggles=3, victim=victim))
             out.append(dict(transport="tcp-server", nconn=3, burst=3, toggles=2, victim=victim))
+        for tr in ("tcp-client", "tcp-server"):
+            for big_at in (0, 1, 2):
+                out.append(dict(transport=tr, nconn=1, burst=3, toggles=3, victim=None, big=200000, big_at=big_at))
+            out.append(dict(transport=tr, nconn=2 if tr == "tcp-server" else 1, burst=2, toggles=2, victim=None, big=70000, big_at=0))
+        out.append(dict(transport="tty", nconn=1, burst=3, toggles=0, victim=None, W=3, big=100000, big_at=1))
         for burst in (2, 3):
             for victim in (None, 0):
                 out.append(dict(transport="mixed", nconn=1, burst=burst, toggles=2, victim=victim, W=2))
